@@ -78,6 +78,39 @@ COUNT = dict(
            "_count_holds_or_rolls": ("(Simfile.GenCode.countHoldsOrRolls {0} {1} {orphaned_head} {orphaned_tail})",
                                      COUNT_DEFAULTS("_count_holds_or_rolls", "orphaned_head", "orphaned_tail"))})
 
+def _msd_parameter(fn, args, kw):
+    """MSDParameter(<tuple of components>): the component list; `*xs` splices a list, a conditional expression chooses between tuples"""
+    import ast as _ast
+    from gen_code import Unsupported
+
+    def comps(e):
+        if isinstance(e, _ast.Tuple):
+            parts, cur = [], []
+            for x in e.elts:
+                if isinstance(x, _ast.Starred):
+                    if cur: parts.append("[" + ", ".join(cur) + "]"); cur = []
+                    parts.append(fn.expr(x.value))
+                else:
+                    cur.append(fn.expr(x))
+            if cur or not parts: parts.append("[" + ", ".join(cur) + "]")
+            return "(" + " ++ ".join(parts) + ")"
+        if isinstance(e, _ast.IfExp):
+            return "(if %s then %s else %s)" % (fn.cond(e.test), comps(e.body), comps(e.orelse))
+        raise Unsupported("MSDParameter(%s)" % type(e).__name__)
+    if len(args) != 1 or kw: raise Unsupported("MSDParameter call shape")
+    return "(⟨%s⟩ : Param)" % comps(args[0])
+
+
+def _split(fn, recv, args, kw):
+    import ast as _ast
+    from gen_code import Unsupported
+    if len(args) == 1 and isinstance(args[0], _ast.Constant) and isinstance(args[0].value, str) and len(args[0].value) == 1 and not kw:
+        return "(splitOn %s %s)" % (repr(args[0].value).replace('"', "'"), fn.expr(recv))
+    raise Unsupported("str.split with this separator")
+
+
+SER = dict(write_call="file.write", param_ctor="MSDParameter", param_vars=("param", "notes_param"), calls={"MSDParameter": _msd_parameter})
+
 BINDINGS = [
     dict(file="simfile/timing/engine.py", qual="TaggedEvent.__lt__", module="Engine", lean="taggedEventLt",
          params=[("self", "TEvent"), ("other", "TEvent")], ret="Bool", model="TEvent.lt", theorem="taggedEventLt_eq",
@@ -205,4 +238,46 @@ BINDINGS = [
          names={"BEAT_SUBDIVISION": "(T.beatSubdivision : Rat)"},
          # round() of a Fraction is half-to-even to an int; Beat(n, d) with a denominator is the exact fraction n/d
          calls={"round": "(roundHalfEven {0})", "int": "{0}", "Beat": "(((({0}) : Int) : Rat) / {1})"}),
+
+    # ---- serializers (C01, C02, C04, C05): `file.write(...)` appends items; a parameter object is rendered by the MSD layer
+    dict(file="simfile/sm.py", qual="SMChart.serialize", module="Serialize", lean="serSMChart", ret_mode="list",
+         params=[("self", "SMChart")], ignore_params=["file"], ret="List Item", model="fun c => [Item.param (smChartParam c)]",
+         theorem="serSMChart_eq", properties=["C01", "C04", "C05"], imports=["Simfile.Model.Objects"], **SER,
+         names={"self.stepstype": "(fmtAttr (self.fields.get? (smKey 0)))", "self.description": "(fmtAttr (self.fields.get? (smKey 1)))",
+                "self.difficulty": "(fmtAttr (self.fields.get? (smKey 2)))", "self.meter": "(fmtAttr (self.fields.get? (smKey 3)))",
+                "self.radarvalues": "(fmtAttr (self.fields.get? (smKey 4)))", "self.notes": "(fmtAttr (self.fields.get? (smKey 5)))",
+                "self.extradata": "self.extradata"},
+         value_or={"self.extradata": "(({0}).getD {1})"}),
+    dict(file="simfile/base.py", qual="BaseCharts.serialize", module="Serialize", lean="serSMCharts", ret_mode="list",
+         params=[("self", "List SMChart")], ignore_params=["file"], ret="List Item",
+         model="fun cs => cs.flatMap fun c => [Item.param (smChartParam c), Item.text nl]", theorem="serSMCharts_eq",
+         properties=["C01", "C04", "C05"], imports=["Simfile.Model.Objects"], **SER, names={"self": "self"},
+         writer_calls={".serialize": "(Simfile.GenCode.serSMChart {self}){_0}"}),
+    dict(file="simfile/base.py", qual="BaseSimfile.serialize", module="Serialize", lean="serSM", ret_mode="list",
+         params=[("self", "SMSimfile")], ignore_params=["file"], ret="List Item", model="serSM", theorem="serSM_eq",
+         properties=["C01", "C04", "C05"], imports=["Simfile.Model.Objects"], **SER,
+         names={"BaseSimfile.MULTI_VALUE_PROPERTIES": "T.multiValue", "value": "(value.getD [])"},
+         methods={"items": "{self}.props", "split": _split},
+         writer_calls={"self.charts.serialize": "(Simfile.GenCode.serSMCharts self.charts){_0}"}),
+
+    # SSC flavour. `self[notes_key]` raises KeyError for a chart without note data: that branch is outside the translated tie
+    # (the equality theorems carry the hypothesis that every chart has its note data; the model's error branch is tied by the
+    # differential stream only).
+    dict(file="simfile/ssc.py", qual="SSCChart.serialize", module="SerializeSSC", lean="serSSCChart", ret_mode="list",
+         params=[("self", "SSCChart")], ignore_params=["file"], ret="List Item", model="serSSCChart (under hasNotes)",
+         theorem="serSSCChart_eq", properties=["C02", "C04", "C05"], imports=["Simfile.Model.Objects"], **{k: v for k, v in SER.items() if k != "calls"},
+         names={"BaseSimfile.MULTI_VALUE_PROPERTIES": "T.multiValue", "value": "(value.getD [])", "notes": "(notes.getD [])"},
+         contains={"self": "(self.props.contains {0} = true)"},
+         methods={"items": "{self}.props", "split": _split},
+         calls={"MSDParameter": _msd_parameter, "self[]": "((self.props.get? {0}).getD none)"}),
+    dict(file="simfile/base.py", qual="BaseCharts.serialize", module="SerializeSSC", lean="serSSCCharts", ret_mode="list",
+         params=[("self", "List SSCChart")], ignore_params=["file"], ret="List Item", model="serSSC (chart part, under hasNotes)",
+         theorem="serSSCCharts_eq", properties=["C02", "C04", "C05"], imports=["Simfile.Model.Objects"], **SER, names={"self": "self"},
+         writer_calls={".serialize": "(Simfile.GenCode.serSSCChart {self}){_0}"}),
+    dict(file="simfile/base.py", qual="BaseSimfile.serialize", module="SerializeSSC", lean="serSSC", ret_mode="list",
+         params=[("self", "SSCSimfile")], ignore_params=["file"], ret="List Item", model="serSSC (under hasNotes)", theorem="serSSC_eq",
+         properties=["C02", "C04", "C05"], imports=["Simfile.Model.Objects"], **SER,
+         names={"BaseSimfile.MULTI_VALUE_PROPERTIES": "T.multiValue", "value": "(value.getD [])"},
+         methods={"items": "{self}.props", "split": _split},
+         writer_calls={"self.charts.serialize": "(Simfile.GenCode.serSSCCharts self.charts){_0}"}),
 ]
